@@ -172,7 +172,9 @@ pub fn mutate(rng: &mut Rng, doc: &mut Vec<u8>, toks: &[Tok]) {
             }
             1 => {
                 let i = rng.below(doc.len() + 1);
-                let b = *rng.pick(b" \t\r\n0123456789-cpvs{};aZ\x80\xff\x00");
+                // separators, digits, letters and the bytes just outside the digit / letter ranges
+                // (`/`, `:`, `@`, `[`, backtick, `{`, and their high-bit twins)
+                let b = *rng.pick(b" \t\r\n0123456789-cpvs{};aZ\x80\xff\x00/:@[`{\xaf\xba\xe0\xfb");
                 doc.insert(i, b);
             }
             2 if !doc.is_empty() => {
@@ -237,7 +239,7 @@ pub fn arbitrary(rng: &mut Rng, kind: PKind, len: usize) -> Vec<u8> {
         PKind::Cnf | PKind::Wcnf | PKind::Gcnf => b"0123456789-  \t\r\n\n cp{}wgnf",
         PKind::SatLog => b"0123456789-  \n\nsvc SATISFIABLEUNKNOWN",
         PKind::Aag | PKind::Aig => b"0123456789  \n\naigilobcjf\x00\x7f\x80\xff",
-        PKind::Btor2 => b"0123456789  \n\n;-abcdefghijklmnopqrstuvwxyz",
+        PKind::Btor2 => b"0123456789  \n\n;-abcdefghijklmnopqrstuvwxyz`{",
     };
     let mut out = Vec::with_capacity(len + 8);
     if rng.chance(1, 2) {
